@@ -51,6 +51,49 @@ theorem non_get_routes :
     (adminRoutes.filter (fun r => r.method != "GET")).all (fun r => r.mutating || r.isConfig) = true := by
   decide
 
+
+/-! ### State-changing by effect (audit round 7, C18)
+
+`Route.mutating` goes by the HTTP method. The statements below go by what the handler *does*: the table
+`upstreamWrites` (regenerated from internal/clusterinfo/data.go and internal/http_api/api_request.go: which
+method can send a request that is not a GET) classifies every upstream call of every skeleton. -/
+
+def skelWrites (r : Route) : Bool :=
+  match skelOf r with
+  | some sk => canWrite upstreamWrites sk
+  | none => true
+
+/-- Every route whose handler can perform a write (a non-GET upstream request, a notification, a
+configuration write, or anything the extractor does not understand) is one of the POST/PUT/DELETE routes
+below `/api` or a `/config` route. A new `GET /api/purge/:topic` that calls `DeleteTopic` fails here. -/
+theorem writers_are_mutating_or_config :
+    (adminRoutes.filter skelWrites).all (fun r => r.mutating || r.isConfig || r.isProxy) = true := by decide
+
+/-- … and each of the POST/PUT/DELETE routes below `/api` does write (the guard theorems are not about
+handlers that do nothing). -/
+theorem mutating_routes_write : (adminRoutes.filter Route.mutating).all skelWrites = true := by decide
+
+/-- Every GET route outside `/config` (views, pages, static files) performs only reads. -/
+theorem get_routes_readonly :
+    checkAll Route.plainGet (fun sk => !canWrite upstreamWrites sk) = true := by decide
+
+/-- The classification is not empty talk: the ten actions write, the lookups do not. -/
+theorem upstreamWrites_sample :
+    writesOf upstreamWrites "DeleteTopic" = true ∧ writesOf upstreamWrites "EmptyChannel" = true ∧
+    writesOf upstreamWrites "GetNSQDStats" = false ∧ writesOf upstreamWrites "GetTopicProducers" = false ∧
+    writesOf upstreamWrites "client.GETV1" = false ∧ writesOf upstreamWrites "client.POSTV1" = true ∧
+    writesOf upstreamWrites "SomethingNew" = true := by decide
+
+/-! ### The action is reached (audit round 7, C19) -/
+
+/-- In every mutating handler a well-formed request with an admin identity (body decodes, names valid,
+action one of pause / unpause / empty) can only end 200 or 502 — there is no other way out behind the
+check. With `mutating_routes_fanout` (200/502 ⇒ exactly the expected `ClusterInfo` action): the action is
+carried out. A `return 400` inserted behind the check fails here. -/
+theorem mutating_routes_reach :
+    (adminRoutes.filter Route.mutating).all (fun r =>
+      match skelOf r with | some sk => adminReaches r.handler sk | none => false) = true := by decide
+
 /-! ### Which ClusterInfo action a mutating handler performs -/
 
 def upstreamsOf (effs : List Eff) : List String :=
